@@ -153,6 +153,11 @@ func c20Tok(pos, j int) string { return fmt.Sprintf("K%d%c", pos, 'a'+j) }
 // text classes (DESIGN §4 C20): t, a*b, _x_, "# h", a|b, "1. x", "`", " t "
 var c20Classes = []string{"t", "star", "under", "hash", "pipe", "ordered", "tick", "space", "words", "cjk"}
 
+var c20MidMarks = map[string]string{"mid-dash": "-", "mid-plus": "+", "mid-gt": ">", "mid-hash": "#", "mid-ord": "1.", "mid-ordp": "2)", "mid-star": "*",
+	"end-eq": "===", "end-dash": "---", "end-hash": "##"}
+
+var c20MidClasses = []string{"mid-dash", "mid-plus", "mid-gt", "mid-hash", "mid-ord", "mid-ordp", "mid-star", "end-eq", "end-dash", "end-hash"}
+
 func c20Text(class, tok string) string {
 	switch class {
 	case "star":
@@ -174,6 +179,14 @@ func c20Text(class, tok string) string {
 	case "cjk":
 		// words that end and begin with East Asian characters: a wrapped export folds between them
 		return tok + "漢 字"
+	}
+	// a block marker as a word of its own after a six-letter word: under wrapping at 6 the marker is the first
+	// word of a continuation line (seed C20-d1); "end-*": the marker is the last word, alone on its line
+	if m, ok := c20MidMarks[class]; ok {
+		if strings.HasPrefix(class, "end-") {
+			return tok + "xyz " + m
+		}
+		return tok + "xyz " + m + " w"
 	}
 	return tok
 }
@@ -1537,6 +1550,33 @@ func c20Enumerate(a c20Args, f func(part, key string, mk func() []c20Elem, opt i
 					for _, oi := range allOpts {
 						f("C", key, mk, oi)
 					}
+				}
+			}
+		}
+	}
+	// part W: a block marker as a word in the middle / at the end of a text, in the containers whose text is wrapped or
+	// carried over several lines, alone and between paragraphs, all options
+	for _, class := range c20MidClasses {
+		for _, cont := range []string{"paragraph", "list", "quote", "h2"} {
+			for _, ctx := range []string{"alone", "between-p"} {
+				cl, ct, cx := class, cont, ctx
+				mk := func() []c20Elem {
+					var els []c20Elem
+					p := 0
+					if cx == "between-p" {
+						els = append(els, c20Para(p, []int{0}, true, "t"))
+						p++
+					}
+					els = append(els, c20InContainer(ct, p, 0, cl))
+					p++
+					if cx == "between-p" {
+						els = append(els, c20Para(p, []int{0}, true, "t"))
+					}
+					return els
+				}
+				key := fmt.Sprintf("W/%s/%s/%s", cl, ct, cx)
+				for _, oi := range allOpts {
+					f("W", key, mk, oi)
 				}
 			}
 		}
